@@ -23,6 +23,7 @@ struct ChunkLayout {
     bool crc = false;
     bool dict_offset_present = true;
     int chunk_stats = 0;               // 0 none, 1 min_value/max_value, 2 deprecated min/max, 3 both
+    int nan_policy = 0;                // statistics over chunks holding NaN: 0 omit min/max, 1 bounds of the non-NaN values
     bool page_stats = false;
     int file_offset_mode = 0;          // ColumnChunk.file_offset: 0 zero, 1 chunk start, 2 chunk end
     bool shuffle_dict = false;
@@ -35,7 +36,7 @@ struct Lie {
     std::vector<int> path;              // Thrift field path inside the PageHeader, e.g. {5,1} = data_page_header.num_values
     int64_t value = 0;
     bool relative = false;              // header lies: value is a delta added to the true value (near-miss sizes and counts)
-    int body_kind = 0;                  // 0 header field; 1 first byte of the values section (dictionary index bit width); 2 definition-level length prefix; 3 repetition-level length prefix
+    int body_kind = 0;                  // 0 header field; 1 first byte of the values section (dictionary index bit width); 2 definition-level length prefix; 3 repetition-level length prefix; 4 values section replaced by `value` zero bytes
 };
 struct Layout {
     std::vector<Lie> lies;
@@ -71,11 +72,17 @@ static inline bool is_nan_value(int type, const std::string& v) {
     return false;
 }
 // true bounds over a range of values; false when none can be stated (no values, NaN present, INT96)
-static inline bool min_max(int type, const std::vector<std::string>& vals, size_t from, size_t to, std::string* mn, std::string* mx) {
+// nan_policy 0: no min/max at all when a NaN is present (what parquet-mr does); 1: min/max over the non-NaN values
+// (what the format text asks for: "NaN values should not be written to min/max")
+static inline bool min_max(int type, const std::vector<std::string>& vals, size_t from, size_t to, std::string* mn, std::string* mx, int nan_policy = 0) {
     if (type == T_I96 || from >= to) return false;
-    for (size_t i = from; i < to; i++) if (is_nan_value(type, vals[i])) return false;
-    *mn = *mx = vals[from];
-    for (size_t i = from + 1; i < to; i++) { if (cmp_values(type, vals[i], *mn) < 0) *mn = vals[i]; if (cmp_values(type, vals[i], *mx) > 0) *mx = vals[i]; }
+    bool have = false;
+    for (size_t i = from; i < to; i++) {
+        if (is_nan_value(type, vals[i])) { if (nan_policy == 0) return false; continue; }
+        if (!have) { *mn = *mx = vals[i]; have = true; continue; }
+        if (cmp_values(type, vals[i], *mn) < 0) *mn = vals[i]; if (cmp_values(type, vals[i], *mx) > 0) *mx = vals[i];
+    }
+    if (!have) return false;
     // -0.0 / +0.0: bounds must cover both signs
     if (type == T_F32) { float a, b; memcpy(&a, mn->data(), 4); memcpy(&b, mx->data(), 4); if (a == 0) { a = -0.0f; mn->assign((char*)&a, 4); } if (b == 0) { b = 0.0f; mx->assign((char*)&b, 4); } }
     if (type == T_F64) { double a, b; memcpy(&a, mn->data(), 8); memcpy(&b, mx->data(), 8); if (a == 0) { a = -0.0; mn->assign((char*)&a, 8); } if (b == 0) { b = 0.0; mx->assign((char*)&b, 8); } }
@@ -194,6 +201,7 @@ static inline Written write_file(const Table& t, const Layout& lay) {
                     if (lie.body_kind == 1 && body.size() > rep_len + def_len) body[rep_len + def_len] = (char)lie.value;
                     else if (lie.body_kind == 2 && def_len >= 4) memcpy(&body[rep_len], &v, 4);
                     else if (lie.body_kind == 3 && rep_len >= 4) memcpy(&body[0], &v, 4);
+                    else if (lie.body_kind == 4) { size_t keep = std::min(body.size(), rep_len + def_len + 1); body.resize(keep); body.append((size_t)std::max<int64_t>(lie.value, 0), '\0'); }   // values section = a long stretch of zero bytes (zero-length runs)
                 }
             };
             auto emit_page = [&](TV& H, const std::string& body, bool is_dict) {
@@ -287,7 +295,7 @@ static inline Written write_file(const Table& t, const Layout& lay) {
                 e0 = e1; v0 = v1; pageno++;
             }
             co.end = o.size();
-            co.has_minmax = min_max(col.type, ch.vals, 0, ch.vals.size(), &co.mn, &co.mx);
+            co.has_minmax = min_max(col.type, ch.vals, 0, ch.vals.size(), &co.mn, &co.mx, L.nan_policy);
             co.nulls = (int64_t)(ch.def.size() - ch.vals.size());
             // column chunk metadata
             TV M = TV::Struct();
